@@ -1918,3 +1918,128 @@ pub fn gen_c15(rng: &mut Rng, d: &mut Dist, _idx: u64) -> Vec<String> {
     }
     out
 }
+
+
+/// a message-set tree: entries are plain messages or wrappers (gzip / snappy) around a sub-tree, up to `depth` levels;
+/// offsets strictly increase.  Returns (bytes, first offset, last offset).
+pub fn set_tree(rng: &mut Rng, d: &mut Dist, depth: u32, off: &mut i64, n: u64) -> (Vec<u8>, i64, i64) {
+    let mut out = Vec::new();
+    let first = *off;
+    let mut last = *off;
+    for _ in 0..n {
+        if depth > 0 && rng.chance(2, 5) {
+            let codec = 1 + rng.below(2) as u8;
+            let k = 1 + rng.below(3);
+            let (inner, _f, l) = set_tree(rng, d, depth - 1, off, k);
+            bump(d, &format!("wrapper-depth-{}", depth));
+            out.extend(real_wrapper(rng, codec, l, &inner));
+            last = l;
+        } else {
+            let key = if rng.chance(1, 3) { None } else { Some(rng.rbytes(0, 6)) };
+            let val = match rng.below(8) {
+                0 => None,
+                1 => Some(vec![]),
+                2 => Some(rng.bytes(84)),
+                3 => {
+                    let n = 100 + rng.below(900) as usize;
+                    Some(rng.bytes(n))
+                }
+                _ => Some(rng.rbytes(1, 40)),
+            };
+            bump(d, "plain-entry");
+            out.extend(raw_msg(*off, 0, key.as_deref(), val.as_deref(), 0));
+            last = *off;
+            *off += 1 + if rng.chance(1, 6) { rng.below(3) as i64 } else { 0 };
+        }
+    }
+    (out, first, last)
+}
+
+/// C18: logs over plain / compressed / nested (to three levels) entries; results of low-level fetches and of polls are
+/// kept alive while later calls on the same client, allocation churn, moves (box / vec / another thread) and drops of
+/// *other* results happen, and are re-read after each step.
+pub fn gen_c18(rng: &mut Rng, d: &mut Dist, _idx: u64) -> Vec<String> {
+    let cl = Cluster::random(rng, 2, false);
+    let mut out = cl.setup_lines();
+    let mut ends: Vec<(String, usize, i64, usize)> = Vec::new();
+    for t in &cl.topics {
+        for p in 0..t.leaders.len() {
+            let mut off = rng.below(3) as i64;
+            let mut bytes = 0;
+            let nb = 1 + rng.below(4);
+            for _ in 0..nb {
+                let depth = *rng.pick(&[0u32, 1, 1, 2, 2, 3]);
+                let ne = 1 + rng.below(3);
+                let (bs, f, l) = set_tree(rng, d, depth, &mut off, ne);
+                bytes += bs.len();
+                out.push(format!("APPENDRAW {} {} {} {} {}", h(&t.name), p, f, l, hex(&bs)));
+            }
+            ends.push((t.name.clone(), p, off, bytes));
+        }
+    }
+    out.push(format!("OP client_new {}", cl.bootstrap()));
+    out.push("OP c load_metadata_all".into());
+    let with_consumer = rng.chance(1, 2);
+    if with_consumer {
+        bump(d, "with-consumer");
+        let ts: Vec<String> = cl.topics.iter().map(|t| format!("topic={}", h(&t.name))).collect();
+        out.push(format!("OP consumer_create hosts={} fallback=earliest maxbytes={} {}", cl.bootstrap(), 1 << 20, ts.join(" ")));
+    }
+    let fetch = |rng: &mut Rng, out: &mut Vec<String>| {
+        let mut line = String::from("OP c fetch_keep");
+        let k = 1 + rng.below(ends.len() as u64) as usize;
+        let start = rng.below(ends.len() as u64) as usize;
+        for i in 0..k {
+            let (t, p, end, bytes) = &ends[(start + i) % ends.len()];
+            let off = if rng.chance(1, 2) { 0 } else { rng.below(*end as u64 + 1) as i64 };
+            let mb = if rng.chance(3, 4) { 1 << 20 } else { 30 + rng.below(*bytes as u64 + 40) };
+            line.push_str(&format!(" {} {} {} {}", h(t), p, off, mb));
+        }
+        out.push(line);
+    };
+    let mut kept = 0usize;
+    let steps = 4 + rng.below(10);
+    for _ in 0..steps {
+        match rng.below(10) {
+            0 | 1 | 2 => {
+                bump(d, "op-fetch_keep");
+                fetch(rng, &mut out);
+                kept += 1;
+            }
+            3 if with_consumer => {
+                bump(d, "op-poll_keep");
+                out.push("OP poll_keep".into());
+                kept += 1;
+            }
+            4 => {
+                bump(d, "op-churn");
+                out.push(format!("OP churn {}", 1 + rng.below(3)));
+            }
+            5 => {
+                let how = *rng.pick(&["box", "vec", "thread"]);
+                bump(d, &format!("op-move-{}", how));
+                out.push(format!("OP keep_move {}", how));
+            }
+            6 if kept > 1 => {
+                bump(d, "op-drop-other");
+                out.push(format!("OP keep_drop {}", rng.below(kept as u64)));
+            }
+            7 => {
+                // an unrelated call on the same client between reads
+                bump(d, "op-other-call");
+                let (t, _, _, _) = &ends[rng.below(ends.len() as u64) as usize];
+                out.push(format!("OP c fetch_topic_offsets -1 {}", h(t)));
+            }
+            _ => {
+                bump(d, "op-fetch_messages");
+                let mut tmp = Vec::new();
+                fetch(rng, &mut tmp);
+                out.push(tmp[0].replace("fetch_keep", "fetch_messages"));
+            }
+        }
+        out.push("OP keep_check".into());
+    }
+    out.push("OP churn 2".into());
+    out.push("OP keep_check".into());
+    out
+}
